@@ -1,5 +1,7 @@
 (* C08 — concrete witnesses, evaluated by vm_compute: non-vacuity examples for
-   the theorems, and the refutations that record the two confirmed defects and
+   the theorems; witnesses that the two FORMER configurations of the code (before
+   the repairs f1643ee and 1222816, named explicitly: [compile_gen false],
+   [transported_env_gen false]) violated the property; and the refutation showing
    the one hypothesis names_unique cannot do without. *)
 From Coq Require Import List String NArith Arith Bool Lia.
 Import ListNotations.
@@ -48,7 +50,7 @@ Example ex_branch :
           ("inv1_cogroup", 1); ("inv1_cogroup", 1)].
 Proof. eexists; eexists. vm_compute. repeat split. Qed.
 
-(* ---------- DEFECT 1: Reshuffle(result) ---------- *)
+(* ---------- former defect 1 (repaired by f1643ee): Reshuffle(result) ---------- *)
 (* an earlier invocation (index 1) left two tasks; the Func of invocation 2
    returns Reshuffle(result) *)
 Definition init_result : list task :=
@@ -64,14 +66,13 @@ Proof. apply wf_dag_b_sound. reflexivity. Qed.
 Lemma init_result_wf : wf_init g_reshuffle_result init_result.
 Proof. apply wf_init_b_sound. reflexivity. Qed.
 
-(* The consumer (the reshuffle stage, 2 shards) reads partitions 0 and 1 of the
-   producers, but the producers -- the re-shuffle tasks inserted over the Result --
-   declare NumPartition = 0 and have no partitioner.  With the model's switch off
-   (the code as it is) shuffle_wiring is false for this DAG. *)
-Theorem result_shuffle_refuted :
-  result_shuffle_fixed = false /\
+(* FORMER configuration (fixed = false).  The consumer (the reshuffle stage, 2
+   shards) reads partitions 0 and 1 of the producers, but the producers -- the
+   re-shuffle tasks inserted over the Result -- declared NumPartition = 0 and had
+   no partitioner: shuffle_wiring was false for this DAG. *)
+Theorem result_shuffle_unfixed_witness :
   exists st roots,
-    compile_top g_reshuffle_result 2%N false init_result empty_env = COk st roots
+    compile_gen false g_reshuffle_result 2%N false init_result empty_env = COk st roots
     /\ exists t td m u,
          nth_error (sstore st) (nth 1 roots 0) = Some t /\ In td (tdeps t)
          /\ dpart td = 1
@@ -79,21 +80,20 @@ Theorem result_shuffle_refuted :
          /\ top u = "inv1_const_shuffle"
          /\ tnumpart u = 0 /\ tnumpart u <> tnshard t /\ tpart u = 0.
 Proof.
-  split; [reflexivity|].
   eexists; eexists. split; [vm_compute; reflexivity|].
   eexists; eexists; exists 2; eexists. vm_compute.
   repeat split; auto; discriminate.
 Qed.
 
-(* with the switch on, the same DAG is wired as the property demands *)
-Example result_shuffle_when_fixed :
+(* the code as it is: the same DAG is wired as the property demands *)
+Example result_shuffle_code :
   exists st roots,
-    compile_gen true g_reshuffle_result 2%N false init_result empty_env = COk st roots
+    compile_top g_reshuffle_result 2%N false init_result empty_env = COk st roots
     /\ map (fun t => (top t, tnumpart t, tpart t)) (skipn 2 (sstore st))
        = [("inv1_const_shuffle", 2, 1); ("inv1_const_shuffle", 2, 1); ("inv2_reshuffle", 1, 1); ("inv2_reshuffle", 1, 1)].
 Proof. eexists; eexists. vm_compute. repeat split. Qed.
 
-(* ---------- DEFECT 2: the worker's environment is writable ---------- *)
+(* ---------- former defect 2 (repaired by 1222816): the worker's environment was writable ---------- *)
 (* Map(CachePartial(Reshuffle(Const(2)))): when the driver compiles nothing is
    cached; when the worker compiles, shard 1 of the cache exists. *)
 Definition g_cache (view : list bool) : list node :=
@@ -106,25 +106,26 @@ Proof.
   split; [reflexivity|]. intro i. destruct i as [|[|[|i]]]; simpl; repeat split; reflexivity.
 Qed.
 
-Theorem worker_env_refuted :
-  transport_freezes_env = false /\
+(* FORMER configuration (the shipped environment not frozen): the worker, seeing
+   shard 1 cached, forgot dependencies the driver kept. *)
+Theorem worker_env_unfrozen_witness :
   exists driver roots worker roots',
     compile_top (g_cache [false; false]) 1%N false [] empty_env = COk driver roots
     /\ compile_top (g_cache [false; true]) 1%N false []
-                   (transported_env empty_env (senv driver)) = COk worker roots'
+                   (transported_env_gen false empty_env (senv driver)) = COk worker roots'
     /\ map tdeps (sstore driver) <> map tdeps (sstore worker).
 Proof.
-  split; [reflexivity|].
   eexists; eexists; eexists; eexists. split; [vm_compute; reflexivity|].
   split; [vm_compute; reflexivity|]. vm_compute. discriminate.
 Qed.
 
-(* had the environment been frozen, the worker would have agreed *)
-Example worker_env_when_frozen :
+(* the code as it is: the worker agrees with the driver *)
+Example worker_env_code :
   exists driver roots,
     compile_top (g_cache [false; false]) 1%N false [] empty_env = COk driver roots
     /\ exists worker roots',
-         compile_top (g_cache [false; true]) 1%N false [] (freeze (senv driver)) = COk worker roots'
+         compile_top (g_cache [false; true]) 1%N false [] (transported_env empty_env (senv driver))
+         = COk worker roots'
          /\ sstore worker = sstore driver /\ roots' = roots.
 Proof.
   eexists; eexists. split; [vm_compute; reflexivity|].
